@@ -58,6 +58,8 @@ pub fn derive_paths(t: &Tree) -> Vec<(String, &'static str)> {
     }
     v.push(("/missing-entry".into(), "near-miss-missing"));
     v.push(("/missing-dir/missing.html".into(), "near-miss-missing"));
+    // a '#' or '?' inside a name ends the path of a raw request target: such entries cannot be addressed (the suffix variants add their own)
+    v.retain(|(p, _)| !p.contains('#') && !p.contains('?'));
     v.sort(); v.dedup();
     v
 }
